@@ -79,8 +79,9 @@ CHECK_DEADLOCK FALSE
 def driver_crash(ctx, p, args):
     """A driver that hosts real nodes died: if QED code panicked, that is real behaviour, not infrastructure."""
     err = (p.stderr or "") + (p.stdout or "")
-    if ("panic:" in err or "fatal error:" in err or "SIGABRT" in err or "Assertion" in err) and ("github.com/bbva/qed/" in err or "rocksdb" in err.lower()):
-        lines = [x for x in err.splitlines() if x.startswith("panic:") or "fatal error" in x or "Assertion" in x]
+    if ("panic:" in err or "fatal error:" in err or "SIGABRT" in err or "Assertion" in err or "SIGSEGV" in err or "SIGBUS" in err
+            or "signal arrived during cgo execution" in err) and ("github.com/bbva/qed/" in err or "rocksdb" in err.lower()):
+        lines = [x for x in err.splitlines() if x.startswith("panic:") or "fatal error" in x or "Assertion" in x or x.startswith("SIGSEGV") or x.startswith("SIGBUS")]
         first = (lines[0] if lines else err.splitlines()[0])[:300]
         dump = os.path.join(ctx.work, "crash_%d.txt" % len(ctx.replay_files))
         with open(dump, "w") as f:
@@ -596,7 +597,8 @@ PLANS = {
                 "RaftNode SIGKILLs itself immediately before / after the i-th store write (every i of the workload, both sides, with and "
                 "without a prior raft snapshot), is restarted on the same directories, replays its raft log, finishes the workload and "
                 "answers membership queries for every event; non-trivial = each (workload, crash write, side) experiment"),
-    "C08": plan("model_checking", [mc_cluster, mc_hyper, crash_tv("stop", 6, 16), balloon_tv(4, 12), balloonbig_tv(2, 8)], RULE_CLUSTER + "; clean stop + reopen of a child-process "
+    "C08": plan("model_checking", [mc_cluster, mc_hyper, crash_tv("stop", 6, 16), cluster_tv("stopload", 2, 6), balloon_tv(4, 12), balloonbig_tv(2, 8)], RULE_CLUSTER + "; stop under load: a membership query is parked "
+                "inside its history proof (gated read of the history table, cold caches) while the node is stopped: shutdown must not complete underneath it and the process must survive; clean stop + reopen of a child-process "
                 "node at every prefix length (exit status checked) and close/reopen of the balloon at random points on RocksDB; scale scenario: "
                 "a balloon of 1000..3900 events (one hyper cache tile per event) reopened with 999 / 1000 / 1001 / mid-page / multi-page tile counts "
                 "(the cache warm-up reads 1000 tiles per page), then inserted into and queried; MC_Hyper: the incremental hyper tree used for these "
